@@ -79,12 +79,17 @@ def indep_facts(v4):
     sstruct = must(re.search(r'type sorterClass_\[V any\] struct \{(.*?)\n\}', sorter, re.S), 'sorterClass_ struct').group(1)
     sstruct = re.sub(r'//[^\n]*', '', sstruct)
     shares_coll = bool(re.search(r'\bRankingFunction\[|\bCollatorLike\[|\*collator_\[', sstruct))
+    # does a public call of a collator change the collator (depth counter kept in the instance)?
+    coll = read(os.path.join(v4, 'agent/collator.go'))
+    pub = re.findall(r'func \(v \*collator_\[V\]\) (CompareValues|RankValues)\([^)]*\)[^{]*\{(.*?)\n\}', coll, re.S)
+    shares_depth = len(pub) != 2 or any(re.search(r'\bv\.(depth_|compareValues\(|rankValues\()', re.sub(r'//[^\n]*', '', body)) for _, body in pub)
     b = lambda x: 'true' if x else 'false'
     return [
         "Definition registry_locked : list (string * bool) := [%s]." % '; '.join('(%s, %s)' % (coq_string(n), b(v)) for n, v in locked),
         "Definition notation_shares_formatter : bool := %s." % b(shares_fmt),
         "Definition notation_shares_parser : bool := %s." % b(shares_par),
         "Definition sorter_shares_collator : bool := %s." % b(shares_coll),
+        "Definition collator_shares_depth : bool := %s." % b(shares_depth),
     ]
 
 def main():
